@@ -68,6 +68,7 @@ class LoopRec:
         self.carried = {}        # local -> dict(pre=, hv=, ends=[(guard, value)])
         self.paths = 0
         self.stores = []         # collected per-iteration stores (obj, Store)
+        self.raw_stores = []     # the same before de-flattening (used by the interference check)
         self.iter_desc = None
 
 # ------------------------------------------------------------------------- recorder
@@ -631,7 +632,7 @@ class Interp:
             if isinstance(a, Ptr) and isinstance(b, E):
                 if a.path and a.path[-1][0] == 'i':
                     return Ptr(a.obj, a.path[:-1] + (('i', X.binop('add', a.path[-1][1], b)),), a.mut, a.flat, a.origin)
-            raise Unsupported('pointer offset')
+            raise Unsupported(f'pointer offset on {a!r} by {b!r}')
         if op == 'Cmp':
             raise Unsupported('three-way compare')
         if not (isinstance(a, E) and isinstance(b, E)):
@@ -950,6 +951,10 @@ class Interp:
                             self.exec_stmt(st, fr, s)
                         except (IndexError, KeyError, AttributeError, TypeError) as ex:
                             raise RuntimeError(f"internal error in {fn['key']} bb{bb} stmt {s}: {ex!r}") from ex
+                        except Unsupported as ex:
+                            if ' [in ' not in str(ex):
+                                raise Unsupported(f"{ex} [in {fn['key']} line {s.get('ln')}]") from ex
+                            raise
                     t = blk['t']
                     k = t['k']
                     if k == 'goto':
@@ -1201,6 +1206,7 @@ class Interp:
             seen.add(stv.seq)
             g = stv.pc[rec.pre_pc_len:] + stv.guard
             new = Store(stv.index, stv.value, g, stv.qvars + (rec.qvar,), stv.flat, ex.pc, stv.site)
+            rec.raw_stores.append((o, new))
             if new.flat:
                 d = deflatten_store(self, ex.heap[o], new, rec.qvar)
                 if d is not None:
@@ -1215,7 +1221,7 @@ class Interp:
         in place: every load index equals the store index of the same iteration and the
         store index is the iteration variable itself (+ constant base)."""
         written = {}
-        for o, s in rec.stores:
+        for o, s in rec.raw_stores:
             written.setdefault(o, []).append(s)
         k = rec.qvar[0]
         for (o, idx, ver, flat) in rec.loads:
